@@ -10,6 +10,7 @@ import (
 	"regexp"
 	"sort"
 	"strings"
+	"sync"
 
 	"golang.org/x/tools/go/packages"
 	"golang.org/x/tools/go/ssa"
@@ -17,27 +18,30 @@ import (
 )
 
 type Engine struct {
-	repo        string
-	fset        *token.FileSet
-	prog        *ssa.Program
-	pkgs        []*ssa.Package
-	tpkgs       map[string]*types.Package
-	contracts   *ContractSet
-	funcs       map[string][]*ssa.Function // key -> functions (several instantiations possible)
-	allFuncs    []*ssa.Function
-	modsets     map[*ssa.Function]*modset
-	impls       map[string][]implInfo
-	forceInline map[string]bool
-	noInline    map[string]bool
-	globals     map[*types.Var]*ssa.Global
-	typeCache   map[string]types.Type
-	msUnit      *Unit
-	baseLocals  map[string]map[string]string // recorded locators of local names (claims/locals.json)
-	computingMS bool
+	repo            string
+	fset            *token.FileSet
+	prog            *ssa.Program
+	pkgs            []*ssa.Package
+	tpkgs           map[string]*types.Package
+	contracts       *ContractSet
+	funcs           map[string][]*ssa.Function // key -> functions (several instantiations possible)
+	allFuncs        []*ssa.Function
+	modsets         map[*ssa.Function]*modset
+	impls           map[string][]implInfo
+	forceInline     map[string]bool
+	noInline        map[string]bool
+	globals         map[*types.Var]*ssa.Global
+	typeCache       map[string]types.Type
+	msUnit          *Unit
+	baseInline      map[string]bool // size-based inlining decisions recorded with the claims
+	sizeDecisions   map[string]bool // decisions of this run (written with the claims)
+	sizeMu          sync.Mutex
+	baseLocals      map[string]map[string]string // recorded locators of local names (claims/locals.json)
+	computingMS     bool
 	knownGhostTypes map[string]types.Type // ghost arrays (Ref -> value) written by own functions: name -> element type
-	keyInfos    map[string]keyInfo
-	tparams     map[string]types.Type // type parameter names of the function being verified
-	frameSet    map[string]bool       // functions whose frame is checked by their own unit in this run
+	keyInfos        map[string]keyInfo
+	tparams         map[string]types.Type // type parameter names of the function being verified
+	frameSet        map[string]bool       // functions whose frame is checked by their own unit in this run
 }
 
 type implInfo struct {
@@ -1021,10 +1025,19 @@ func (e *Engine) verify(fn *ssa.Function, opts VerifyOpts) (u *Unit) {
 	// postconditions
 	penv := fr.baseEnv()
 	for h, ord := range fr.loopOrd {
+		name := fmt.Sprintf("$idx%d", ord)
 		for _, in := range h.Instrs {
 			if p, ok := in.(*ssa.Phi); ok && p.Comment == "rangeindex" {
 				if v, ok := fr.vals[p]; ok {
-					penv.vars[fmt.Sprintf("$idx%d", ord)] = v
+					penv.vars[name] = v
+				}
+			}
+		}
+		// a range loop that has become a counting loop: the range index is counter - 1
+		if _, have := penv.vars[name]; !have {
+			if cs := fr.countingPhis(h); len(cs) == 1 {
+				if v, ok := fr.vals[cs[0]]; ok && v.K == vTerm {
+					penv.vars[name] = term(fmt.Sprintf("(- %s 1)", v.T), types.Typ[types.Int])
 				}
 			}
 		}
